@@ -998,7 +998,7 @@ async fn faand(
     i: usize,
     n: usize,
     l: usize, //num_and_gates
-    shared_rand: &mut ChaCha20Rng,
+    _shared_rand: &mut ChaCha20Rng,
     xyr_shares: &[Share],
 ) -> Result<Vec<(Share, Share, Share)>, Error> {
     debug!("PI_aAND protocol of WRK17b");
@@ -1015,9 +1015,13 @@ async fn faand(
     let zshares = flaand((channel, delta), (xshares, yshares, rshares), i, n, lprime).await?;
 
     // Step 2) Randomly partition all objects into l buckets, each with b objects.
+    // The partition must not be known before the leaky ANDs have been computed and checked
+    // (a party that knows it can choose which triples to cheat in), so it is drawn from a coin
+    // toss made now and not from a generator that was seeded before the triples existed.
+    let mut bucket_rand = shared_rng(channel, i, n).await?;
     // Use SliceRandom::shuffle for unbiased random permutation
     let mut indices: Vec<usize> = (0..lprime).collect();
-    indices.shuffle(shared_rand);
+    indices.shuffle(&mut bucket_rand);
     #[cfg(polytune_verif)]
     crate::verif::probe(
         "bucket_perm",
